@@ -1322,8 +1322,14 @@ class Bpsec(AbstractApplication):
         # Report status reason
         failure = []
 
-        confidential_blocks = ctr.block_type(BlockConfidentialityBlock)
+        # by type code, the block data may not be decodable
+        bcb_type = BlockConfidentialityBlock._overload_fields[CanonicalBlock]['type_code']
+        confidential_blocks = ctr.block_type(bcb_type)
         for bcb in confidential_blocks:
+            if not isinstance(bcb.payload, BlockConfidentialityBlock):
+                LOGGER.warning('Undecodable BCB in block num %s', bcb.block_num)
+                failure.append(StatusReport.ReasonCode.FAILED_SEC)
+                continue
             LOGGER.debug('Verifying BCB in %d with context %s, targets %s',
                          bcb.block_num, bcb.payload.context_id, bcb.payload.targets)
 
@@ -1335,7 +1341,10 @@ class Bpsec(AbstractApplication):
                 try:
                     result = ctx.verify_bcb(ctr, bcb)
                 except Exception as err:
-                    result = f'Failed to verify BCB in block num {bcb.block_num} with context {bcb.payload.context_id}: {err}'
+                    LOGGER.error('Failed to verify BCB in block num %s with context %s: %s',
+                                 bcb.block_num, bcb.payload.context_id, err)
+                    LOGGER.debug('%s', traceback.format_exc())
+                    result = StatusReport.ReasonCode.FAILED_SEC
 
             if result is not None:
                 failure.append(result)
@@ -1357,8 +1366,14 @@ class Bpsec(AbstractApplication):
         # Report status reason
         failure = []
 
-        integ_blocks = ctr.block_type(BlockIntegrityBlock)
+        # by type code, the block data may not be decodable
+        bib_type = BlockIntegrityBlock._overload_fields[CanonicalBlock]['type_code']
+        integ_blocks = ctr.block_type(bib_type)
         for bib in integ_blocks:
+            if not isinstance(bib.payload, BlockIntegrityBlock):
+                LOGGER.warning('Undecodable BIB in block num %s', bib.block_num)
+                failure.append(StatusReport.ReasonCode.FAILED_SEC)
+                continue
             LOGGER.debug('Verifying BIB in %d with context %s, targets %s',
                          bib.block_num, bib.payload.context_id, bib.payload.targets)
 
@@ -1370,7 +1385,10 @@ class Bpsec(AbstractApplication):
                 try:
                     result = ctx.verify_bib(ctr, bib)
                 except Exception as err:
-                    result = f'Failed to verify BIB in block num {bib.block_num} with context {bib.payload.context_id}: {err}'
+                    LOGGER.error('Failed to verify BIB in block num %s with context %s: %s',
+                                 bib.block_num, bib.payload.context_id, err)
+                    LOGGER.debug('%s', traceback.format_exc())
+                    result = StatusReport.ReasonCode.FAILED_SEC
             if result is not None:
                 failure.append(result)
 
